@@ -421,6 +421,122 @@ impl Check for Consumed {
     }
 }
 
+// ------------------------------------------------------------------ tanh-sinh levels as `integrate` consumes them
+#[derive(Serialize, Deserialize, Clone, Debug)]
+pub struct DePt {
+    /// 0: 1, 1: x^2, 2: e^x, 3: 1/(1.2 + x), 4: sqrt(1 - x^2) (end-point singular derivative), 5: a sequence that never settles,
+    /// 6: 1/(1.02 + x) (pole close to the interval), 7: (1 + x)^0.3 (end-point singularity)
+    pub g: usize,
+    pub tol: f64,
+}
+pub struct DeConsumed;
+const DE_G: [&str; 8] = ["1", "x^2", "exp(x)", "1/(1.2+x)", "sqrt(1-x^2)", "alternating k (never converges)", "1/(1.02+x)", "(1+x)^0.3"];
+impl Check for DeConsumed {
+    type P = DePt;
+    fn name(&self) -> &'static str {
+        "tanh-sinh-as-consumed"
+    }
+    fn rule(&self) -> String {
+        format!("integrate over [-1, 1] (the map onto the table's interval is the identity, so every abscissa reaches the integrand bit for bit) for integrands {:?} x tolerances from 1e300 (stops at the first test) to 1e-300 (consumes all 7 levels): the recorded abscissa sequence must be the table's sequence (0, then x and -x of every entry, level by level), a whole number of levels must be consumed, and an Ok result must equal the fold of the TABLE's weights over the recorded integrand values (pi f(0), then I/2 + sum w (f(x) + f(-x)) per level); signature = (integrand, levels consumed, outcome)", DE_G)
+    }
+    fn points(&self, _t: Tier) -> Vec<DePt> {
+        let mut v = vec![];
+        for g in 0..DE_G.len() {
+            for &tol in &[1e300, 1e-2, 1e-4, 1e-6, 1e-8, 1e-10, 1e-12, 1e-14, 1e-300] {
+                v.push(DePt { g, tol });
+            }
+        }
+        v
+    }
+    fn run(&self, p: &DePt) -> Outcome {
+        use std::cell::RefCell;
+        let mut o = Outcome::new();
+        let subj = "integrate::integrate (tanh-sinh levels as consumed)";
+        let rec: RefCell<Vec<(f64, f64)>> = RefCell::new(vec![]);
+        let g = p.g;
+        let res = vcore::guard(|| {
+            bacon_sci::integrate::integrate::<f64, _>(
+                -1.0,
+                1.0,
+                |x: f64| {
+                    let k = rec.borrow().len();
+                    let v = match g {
+                        0 => 1.0,
+                        1 => x * x,
+                        2 => x.exp(),
+                        3 => 1.0 / (1.2 + x),
+                        4 => (1.0 - x * x).max(0.0).sqrt(),
+                        6 => 1.0 / (1.02 + x),
+                        7 => (1.0 + x).max(0.0).powf(0.3),
+                        _ => if k % 2 == 0 { k as f64 + 1.0 } else { -(k as f64) - 1.0 },
+                    };
+                    rec.borrow_mut().push((x, v));
+                    v
+                },
+                p.tol,
+            )
+        });
+        o.executions = 1;
+        let rec = rec.into_inner();
+        let ctx = || format!("{:?} [{}]", p, DE_G[p.g]);
+        // the table's sequence
+        let mut want: Vec<f64> = vec![0.0];
+        let mut level_end = vec![1usize];
+        for level in WEIGHTS_DE.iter() {
+            for &(_, x) in level.iter() {
+                want.push(x);
+                want.push(-x);
+            }
+            level_end.push(want.len());
+        }
+        let levels = level_end.iter().position(|&e| e == rec.len());
+        if let Some(i) = (0..rec.len().min(want.len())).find(|&i| rec[i].0.to_bits() != want[i].to_bits()) {
+            o.viol(subj, "abscissae-are-the-table's", format!("{}: evaluation {} is at {:?}, the table's sequence has {:?} there", ctx(), i, rec[i].0, want[i]));
+        } else if rec.len() > want.len() || levels.is_none() || levels == Some(0) {
+            o.viol(subj, "whole-levels-are-consumed", format!("{}: {} evaluations; whole levels end at {:?}", ctx(), rec.len(), level_end));
+        }
+        let class = match res {
+            Err(m) => {
+                o.viol(subj, "never-panics", format!("{}: {}", ctx(), m));
+                "panic".to_string()
+            }
+            Ok(Err(_)) => {
+                if rec.len() != want.len() {
+                    o.viol(subj, "err-only-after-the-last-level", format!("{}: Err after {} of {} evaluations", ctx(), rec.len(), want.len()));
+                }
+                "err".to_string()
+            }
+            Ok(Ok(v)) => {
+                if let Some(l) = levels {
+                    // reference fold over the TABLE's weights and the values the integrand actually returned
+                    let mut acc = std::f64::consts::PI * rec[0].1;
+                    let mut mag = acc.abs();
+                    let mut k = 1;
+                    for level in WEIGHTS_DE.iter().take(l) {
+                        let mut c = 0.0;
+                        for &(w, _) in level.iter() {
+                            c += w * (rec[k].1 + rec[k + 1].1);
+                            mag += (w * rec[k].1).abs() + (w * rec[k + 1].1).abs();
+                            k += 2;
+                        }
+                        acc = 0.5 * acc + c;
+                    }
+                    if !((v - acc).abs() <= 64.0 * EPS * mag) {
+                        o.viol(subj, "ok-result-is-the-fold-of-the-table's-weights", format!("{}: returned {:e}, the fold over {} levels of the table gives {:e}", ctx(), v, l, acc));
+                    }
+                }
+                "ok".to_string()
+            }
+        };
+        o.sig = format!("g{}|levels{}|{}", p.g, levels.map_or("?".to_string(), |l| l.to_string()), class);
+        o
+    }
+    fn required(&self, _t: Tier) -> Vec<&'static str> {
+        // the first stop, a stop at a middle level, a stop at the last levels, and a run through all levels must occur
+        vec!["levels3|ok", "levels4|ok", "levels5|ok", "levels6|ok", "levels7|ok", "levels7|err"]
+    }
+}
+
 pub fn main(mut r: Report) -> ! {
     r.exhaustive = true;
     r.assumptions = vec![
@@ -429,5 +545,6 @@ pub fn main(mut r: Report) -> ! {
     ];
     r.run(&Rows);
     r.run(&Consumed);
+    r.run(&DeConsumed);
     r.finish()
 }
